@@ -252,6 +252,9 @@ func VH_c09_gomap() {
 	zz.Config("mapperm", 0)
 	n := zz.Bound("maplen", 2, 2)
 	a, b := mkMap("a", n), mkMap("b", n)
+	if zz.Bool("same.map") {
+		b = a
+	}
 	e := eq.GoMap[int](eq.Given[int]())
 	zz.Assert(e.Eqv(a, b) == mapEq(a, b), "GoMap: same keys with equal values (nil == empty)")
 	zz.Assert(e.Eqv(a, a), "GoMap reflexive")
